@@ -143,3 +143,50 @@ Proof.
            (block_hash_32 (h_ck c)) (block_hash_64 (h_ck c))).
 Qed.
 Print Assumptions C01_end_to_end_none_xxhash.
+
+(* ---------- entropy RANGE: a stream whose blocks are coded by the range codec (C12_range_codec_roundtrip inside) ---------- *)
+(* Model/ContainerG.v: the frames and the stream for any inner image / parser, and the inner pair of the NONE transform +
+   RANGE entropy pipeline (blocks of at most 15 bytes take the copy path).  For every valid configuration whose entropy
+   field says RANGE, every list of blocks (non-empty, within the block size, byte values) whose frames fit the frame size
+   the reader accepts, any checksum mode, any buffer size and source schedule on the reading side: parsing what the writer
+   model produced returns the configuration and exactly the blocks.  The frame-size premise is the one thing not proved
+   about the range coder here (it never expands data by the factor that would be needed; the bound is a premise). *)
+From KV Require Import Model.RangeCodec Model.ContainerG Proofs.ContainerGProofs Proofs.EndToEndRange.
+Theorem C01_container_range_roundtrip : forall (hash : list N -> N) (evalid tvalid : N -> bool) c,
+  cfg_ok evalid tvalid c ->
+  (h_ck c = 1%N -> forall l, (hash l < 2 ^ 32)%N) -> (h_ck c = 2%N -> forall l, (hash l < 2 ^ 64)%N) ->
+  h_etype c = RANGE_TYPE ->
+  forall blocks nframes rbuf sched,
+  Forall (good_r hash (h_ck c) (h_bsize c)) blocks -> (length blocks < nframes)%nat -> (0 < rbuf)%N -> (rbuf mod 8 = 0)%N ->
+  parse_stream_e hash evalid tvalid nframes rbuf sched (write_stream_e hash c blocks) = Some (norm_cfg c, map PData blocks ++ [PEnd]).
+Proof. exact container_range_roundtrip. Qed.
+Print Assumptions C01_container_range_roundtrip.
+
+(* ... and from the caller's Write calls to the caller's Read calls, with the checksums of the code *)
+Theorem C01_end_to_end_range_xxhash : forall (evalid tvalid : N -> bool) c jw hw jr hr
+    (ws : list (list N)) (ns : list N) nframes rbuf sched,
+  cfg_ok evalid tvalid c -> h_etype c = RANGE_TYPE ->
+  bytes_ok (concat ws) -> (length (concat ws) < nframes)%nat ->
+  (0 < jw)%N -> (0 < jr)%N -> (0 < rbuf)%N -> (rbuf mod 8 = 0)%N ->
+  let B := h_bsize c in let hash := block_hash (h_ck c) in
+  Forall (fun b => (snd (inner_image_r hash (h_ck c) b) <= 8589934696)%N) (chunks B (concat ws)) ->
+  exists s1 s2 frames,
+    do_writes B jw hw (init_w jw) ws = (s1, true) /\
+    w_close B jw hw (fun _ => false) s1 false false = (s2, false) /\
+    parse_stream_e hash evalid tvalid nframes rbuf sched (write_stream_e hash c (map snd (w_out s2))) = Some (norm_cfg c, frames) /\
+    fst (do_reads B jr hr (init_r (map frame_of frames)) ns) = spec_reads (concat ws) ns.
+Proof.
+  intros evalid tvalid c jw hw jr hr ws ns nframes rbuf sched Hc Het.
+  exact (end_to_end_range (block_hash (h_ck c)) evalid tvalid c jw hw jr hr ws ns nframes rbuf sched Hc Het
+           (block_hash_32 (h_ck c)) (block_hash_64 (h_ck c))).
+Qed.
+Print Assumptions C01_end_to_end_range_xxhash.
+
+(* the premises are satisfiable, and the model runs: one checksummed RANGE stream of one 26-byte block *)
+Example C01_range_stream_instance :
+  let blk := [104; 101; 108; 108; 111; 32; 104; 101; 108; 108; 111; 32; 119; 111; 114; 108; 100; 33; 33; 33; 0; 255; 104; 104; 101; 101]%N in
+  let c := mkH 1 4 0 1024 26 in
+  (snd (inner_image_r (block_hash 1) 1 blk) <=? 8589934696)%N = true /\
+  parse_stream_e (block_hash 1) (fun _ => true) (fun _ => true) 3 64 [5; 3; 0]%N (write_stream_e (block_hash 1) c [blk])
+    = Some (norm_cfg c, [PData blk; PEnd]).
+Proof. vm_compute. split; reflexivity. Qed.
